@@ -896,6 +896,11 @@ impl Router {
                     .clone()
                     .unwrap_or_else(|| backend.borrow().backend_id.to_owned()),
             );
+        } else {
+            // A kept-alive connection may have served a sticky cluster before:
+            // do not announce that cluster's sticky cookie on the responses of
+            // a cluster that does not stick.
+            context.sticky_session = None;
         }
 
         context.backend_id = Some(backend.borrow().backend_id.to_owned());
